@@ -359,8 +359,17 @@ impl<'a> Model<'a> {
         Ok(())
     }
 
+    /// Updates the conditional formats of the whole workbook after rows or columns of a
+    /// sheet moved: the ranges of the rules on that sheet, and the formulas of every rule,
+    /// on any sheet, that refer to it.
+    fn displace_cf_ranges(&mut self, _sheet: u32, displace_data: &DisplaceData) {
+        for sheet in 0..self.workbook.worksheets.len() as u32 {
+            self.displace_cf_ranges_in_sheet(sheet, displace_data);
+        }
+    }
+
     /// Updates the `range` field and formula fields of every CF rule on `sheet` according to `displace_data`.
-    fn displace_cf_ranges(&mut self, sheet: u32, displace_data: &DisplaceData) {
+    fn displace_cf_ranges_in_sheet(&mut self, sheet: u32, displace_data: &DisplaceData) {
         let count = match self.workbook.worksheets.get(sheet as usize) {
             Some(ws) => ws.conditional_formatting.len(),
             None => return,
